@@ -15,6 +15,7 @@ package blob
 // are independent. A Get that reports the stored size additionally hashes the file.
 
 import (
+	"bytes"
 	"crypto/sha256"
 	"fmt"
 	"os"
@@ -44,6 +45,7 @@ type c08HRec struct {
 	Err    string `json:"err,omitempty"`
 	Full   bool   `json:"full,omitempty"`    // get: reported the stored size
 	HashOK bool   `json:"hash_ok,omitempty"` // get, when Full
+	Torn   bool   `json:"torn,omitempty"`    // get: the file no longer had the stored size when it was read (content not judged)
 	Size   int64  `json:"size,omitempty"`
 	OK     bool   `json:"ok,omitempty"`     // unlink
 	Digest int    `json:"digest,omitempty"` // resolve: blob index, -1 unknown digest, -2 digest of the empty string
@@ -56,8 +58,9 @@ type c08HistCase struct {
 	Hot           bool       `json:"hot"`
 	NDyn          int        `json:"dyn_blobs"`
 	NStable       int        `json:"stable_blobs"`
-	Sizes         []int      `json:"blob_sizes"` // dyn..., stable..., absent
-	Owner         []int      `json:"dyn_owner"`  // -1: shared (good sources only unless BadConcurrent)
+	Sizes         []int      `json:"blob_sizes"`               // dyn..., stable..., absent
+	Rels          []c08Rel   `json:"blob_relations,omitempty"` // stable blobs may be prefixes / extensions / variants of one another
+	Owner         []int      `json:"dyn_owner"`                // -1: shared (good sources only unless BadConcurrent)
 	Threads       [][]c08HOp `json:"threads"`
 	Records       []c08HRec  `json:"records,omitempty"`
 }
@@ -91,6 +94,9 @@ func c08GenHist(r *kit.Rand) c08HistCase {
 			used[s] = true
 		}
 		hc.Sizes = append(hc.Sizes, s)
+	}
+	if !hc.DistinctSizes && r.Chance(2, 3) {
+		hc.Rels = c08GenRels(r, hc.Sizes, hc.NDyn, hc.NDyn+hc.NStable)
 	}
 	hc.Sizes = append(hc.Sizes, 17) // the never-stored blob
 	absent := hc.NDyn + hc.NStable
@@ -247,10 +253,9 @@ func c08RunHist(hc *c08HistCase, seed uint64, sub int, r *kit.Rand, dir string) 
 		return
 	}
 	perm := r.Perm(256)
-	blobs := make([]c08Blob, len(hc.Sizes))
+	blobs := c08BuildBlobs(seed, sub*16, hc.Sizes, hc.Rels, perm)
 	byDigest := map[Digest]int{}
-	for i, n := range hc.Sizes {
-		blobs[i] = c08NewBlob(fmt.Sprintf("b%d", i), c08Content(seed, sub*16+i, n, byte(perm[i])))
+	for i := range blobs {
 		byDigest[blobs[i].d] = i
 	}
 	absent := hc.NDyn + hc.NStable
@@ -295,6 +300,12 @@ func c08RunHist(hc *c08HistCase, seed uint64, sub int, r *kit.Rand, dir string) 
 				rec.Full = true
 				data, _ := os.ReadFile(c.GetFile(b.d))
 				rec.HashOK = sha256.Sum256(data) == b.d.sum
+				if !rec.HashOK && int64(len(data)) != b.n {
+					// Get and the read are two looks at a file that may legitimately shrink in between (a
+					// source that delivers everything and then fails: complete, verified, truncated again).
+					// Only a read of the full size is judged.
+					rec.HashOK, rec.Torn = true, true
+				}
 				if !rec.HashOK {
 					rec.Diff = c08DiffDesc(data, b.data)
 				}
@@ -459,6 +470,9 @@ func c08RunHist(hc *c08HistCase, seed uint64, sub int, r *kit.Rand, dir string) 
 			continue
 		}
 		b := p.Op.Blob
+		if p.Torn {
+			out.count("hist_get_torn_observation", 1)
+		}
 		switch {
 		case p.Full && !p.HashOK:
 			shape := "stable-blob"
@@ -476,12 +490,35 @@ func c08RunHist(hc *c08HistCase, seed uint64, sub int, r *kit.Rand, dir string) 
 		}
 	}
 	for b := 0; b < hc.NDyn; b++ {
-		part := c08PartOf(all, b, "")
+		completes := func(p c08HRec) bool {
+			src := p.Op.Src
+			return p.Op.Kind == "put" && src != nil && (src.Kind == "long" || (src.Kind == "err" && src.At >= int(blobs[b].n)))
+		}
+		// A failing Put whose source delivers the whole content first makes the blob present (verified) for a
+		// moment and then truncates it. No sequential model has that intermediate state, so a Get that saw
+		// the stored size while such a Put was running is left out of the linearizability check (its content
+		// was still judged above).
+		var part []c08HRec
+		for _, p := range c08PartOf(all, b, "") {
+			transient := false
+			if p.Op.Kind == "get" && p.Full {
+				for _, q := range all {
+					if q.Op.Blob == b && completes(q) && q.Err != "" && c08Overlap(p, q) {
+						transient = true
+					}
+				}
+			}
+			if transient {
+				out.count("hist_get_during_transiently_complete_put", 1)
+				continue
+			}
+			part = append(part, p)
+		}
 		res := check(c08DigestModel, part, func(p c08HRec) (c08HIn, c08HOut) {
 			in := c08HIn{kind: p.Op.Kind, blob: b}
 			if src := p.Op.Src; src != nil {
 				in.bad = src.Bad()
-				in.completes = src.Kind == "long" || (src.Kind == "err" && src.At >= int(blobs[b].n))
+				in.completes = completes(p)
 			}
 			return in, c08HOut{errNil: p.Err == "", full: p.Full}
 		})
@@ -565,13 +602,31 @@ func c08NameShape(c *DiskCache, part []c08HRec, folded string, blobs []c08Blob) 
 			linked[n] = p.Op.Blob
 		}
 	}
+	prefixPair := false
+	var linkedBlobs []int
+	for _, p := range part {
+		if p.Op.Kind == "link" && p.Err == "" {
+			linkedBlobs = append(linkedBlobs, p.Op.Blob)
+		}
+	}
+	for _, a := range linkedBlobs {
+		for _, b := range linkedBlobs {
+			if blobs[a].n < blobs[b].n && bytes.HasPrefix(blobs[b].data, blobs[a].data) {
+				prefixPair = true
+			}
+		}
+	}
 	switch {
+	case !concurrent && prefixPair && !sameSize:
+		return "sequential:prefix-relink"
 	case !concurrent && sameSize:
 		return "sequential:same-size-relink"
 	case !concurrent:
 		return "sequential"
 	case sameSize:
 		return "concurrent-link-unlink:same-size-relink"
+	case prefixPair:
+		return "concurrent-link-unlink:prefix-relink"
 	}
 	return "concurrent-link-unlink"
 }
